@@ -219,20 +219,40 @@ theorem processCurrentSchedule_pres (s : Sys) (now : Time) (oid : Oid)
     | cons x r ih => intro st; exact (processOne_pres now oid st x).trans (ih _)
   exact this l { s := s, schedule := schedule, pairs := pairs, curr := [] }
 
-theorem allocTasksIter_pres (s : Sys) (now : Time) (orc : Oracle) (hpre : orc.preOk) (oid : Oid)
-    (schedule pairs : List (Tid × Mid)) (pool : List Tid) :
+theorem foldl_alg {α} (f : Sys → α → Sys) (hf : ∀ s x, (f s x).alg = s.alg) (l : List α) (s : Sys) :
+    (l.foldl f s).alg = s.alg := by
+  induction l generalizing s with
+  | nil => rfl
+  | cons x r ih => exact (ih _).trans (hf s x)
+
+theorem updateCurrentPlan_alg (s : Sys) (oid : Oid) : (s.updateCurrentPlan oid).alg = s.alg := by
+  unfold updateCurrentPlan
+  split
+  · rfl
+  · simp only
+    show (List.foldl _ s _).alg = s.alg
+    apply foldl_alg
+    intro s x
+    split
+    · split <;> rfl
+    · rfl
+
+theorem allocTasksIter_pres (s : Sys) (now : Time) (orc : Oracle) (hpre : s.alg = .oracle → orc.preOk)
+    (oid : Oid) (schedule pairs : List (Tid × Mid)) (pool : List Tid) :
     Pres s (s.allocTasksIter now orc oid schedule pairs pool).1 := by
   unfold allocTasksIter
   simp only
   have h1 : Pres s (s.updateCurrentPlan oid) := Pres.core (updateCurrentPlan_core s oid)
-  generalize s.updateCurrentPlan oid = s1 at h1
+  have hpre1 : (s.updateCurrentPlan oid).alg = .oracle → orc.preOk := by
+    rw [updateCurrentPlan_alg]; exact hpre
+  generalize s.updateCurrentPlan oid = s1 at h1 hpre1
   split
   · exact h1
   · rename_i plan _
     split
     · exact h1
     · rename_i out hout
-      have hq := runAlgorithm_quiet s1 orc plan schedule pool out hpre hout
+      have hq := runAlgorithm_quiet s1 orc plan schedule pool out hpre1 hout
       have h2 : Pres s1 (({ s1 with cl := out.cl }).updPlan oid (fun p => { p with status := out.status })) :=
         Pres.frame hq (TaskMono.refl _) rfl rfl rfl rfl rfl rfl
       generalize (({ s1 with cl := out.cl }).updPlan oid (fun p => { p with status := out.status })) = s2 at h2
@@ -260,7 +280,7 @@ theorem allocTasksIter_pres (s : Sys) (now : Time) (orc : Oracle) (hpre : orc.pr
         · have h4 := processCurrentSchedule_pres s3 now oid out.schedule pairs
           split <;> exact h13.trans h4
 
-theorem allocTasksBlock_pres (s : Sys) (now : Time) (orc : Oracle) (hpre : orc.preOk) (pc : Nat)
+theorem allocTasksBlock_pres (s : Sys) (now : Time) (orc : Oracle) (hpre : s.alg = .oracle → orc.preOk) (pc : Nat)
     (oid : Oid) (schedule pairs : List (Tid × Mid)) (pool : List Tid) (fin : Bool) :
     Pres s (s.allocTasksBlock now orc pc oid schedule pairs pool fin).1 := by
   unfold allocTasksBlock
@@ -270,13 +290,22 @@ theorem allocTasksBlock_pres (s : Sys) (now : Time) (orc : Oracle) (hpre : orc.p
     · simp only
       have h1 : Pres s (s.updPlan oid (fun p => { p with ast := some (natNow now) })) :=
         Pres.core ⟨rfl, rfl, rfl, rfl, rfl, rfl, rfl, rfl⟩
-      generalize (s.updPlan oid (fun p => { p with ast := some (natNow now) })) = s1 at h1
-      refine Pres.trans ?_ (allocTasksIter_pres _ now orc hpre oid schedule pairs pool)
-      apply Pres.addSch_right
-      refine h1.trans ?_
-      apply foldl_pres
-      intro s t
-      exact Pres.updTask s t _ (fun r => ⟨rfl, fun h => h⟩)
+      have halg1 : (s.updPlan oid (fun p => { p with ast := some (natNow now) })).alg = s.alg := rfl
+      generalize (s.updPlan oid (fun p => { p with ast := some (natNow now) })) = s1 at h1 halg1
+      refine Pres.trans ?_ (allocTasksIter_pres _ now orc ?_ oid schedule pairs pool)
+      · apply Pres.addSch_right
+        refine h1.trans ?_
+        apply foldl_pres
+        intro s t
+        exact Pres.updTask s t _ (fun r => ⟨rfl, fun h => h⟩)
+      · intro ho
+        apply hpre
+        rw [← halg1, ← ho]
+        symm
+        show (List.foldl _ s1 _).alg = s1.alg
+        apply foldl_alg
+        intro s t
+        rfl
     · exact allocTasksIter_pres _ now orc hpre oid schedule pairs pool
 
 end Sys
